@@ -317,3 +317,14 @@ pub proof fn lemma_ipa_commit_is_honest(ck: &CommitterKey, p: &LabeledPolynomial
     requires ipa_commit_one(ck, p, c, st, id, pos)
     ensures ipa_honest(ck, p, c, st)
 { }
+//@lemma props=C01,C09
+// the keys `setup` / `trim` return have a power-of-two length (their postconditions `ipa.setup.key_length_least_power_of_two`, `ipa.trim...`: `is_pow2` over p2):
+// that is the precondition both fragments of `open` and the completeness lemma ask for
+pub proof fn lemma_ipa_trimmed_key_is_usable(n: nat)
+    requires is_pow2(n)
+    ensures exists|k: nat| vstd::arithmetic::power2::pow2(k) == n
+{
+    let k = choose|k: nat| n == p2(k);
+    lemma_p2_is_pow2_(k);
+    assert(vstd::arithmetic::power2::pow2(k) == n);
+}
